@@ -12,6 +12,7 @@
 #include <nop/base/table.h>
 #include <nop/structure.h>
 #include <nop/table.h>
+#include <nop/types/file_handle.h>
 #include <nop/utility/fd_reader.h>
 #include <nop/utility/fd_writer.h>
 #include <nop/utility/stream_reader.h>
@@ -278,8 +279,70 @@ inline void lemma_fd_ownership() {
   vt_cover(release, "release path reached");
 }
 
+// one block read of 4 bytes through FdReader from a source of 0..6 bytes that the kernel may deliver in short pieces
+// (chunk 1..4) with one EINTR: the block is complete exactly when the source has 4 bytes, and then it is those bytes
+inline void lemma_fd_block_read() {
+  std::uint8_t src[6];
+  for (int i = 0; i < 6; i++) src[i] = nondet<std::uint8_t>();
+  const std::size_t n = nondet<std::uint8_t>() % 7;
+  const std::size_t chunk = nondet<std::uint8_t>() % 5;     // 0: no artificial limit
+  const std::size_t intr_at = nondet<std::uint8_t>();        // the read(2) call with this index is interrupted once
+  vt_fd_source(src, n, intr_at, ~0UL, chunk);
+  vt_fd_reset_closed();
+  std::uint8_t got[4] = {0, 0, 0, 0};
+  {
+    nop::FdReader r(VT_FD_SRC);
+    auto st = r.Read(got, got + 4);
+    if (n >= 4) {
+      vt_check(static_cast<bool>(st), "a block that is fully present is read completely, however the kernel splits it");
+      vt_check(got[0] == src[0] && got[1] == src[1] && got[2] == src[2] && got[3] == src[3], "the block delivered is the next 4 source bytes");
+      vt_check(vt_fd_consumed() == 4, "exactly the block is consumed");
+    } else {
+      vt_check(!static_cast<bool>(st), "a block that the source cannot fill is an error, never a short success");
+    }
+    (void)r.Release();
+  }
+  vt_cover(n >= 4 && chunk == 1, "byte-at-a-time delivery reached");
+  vt_cover(n == 3, "short source reached");
+}
+
+// UniqueFileHandle (Handle<FileHandlePolicy>) closes the descriptor it owns exactly once — for EVERY valid descriptor
+// number, 0 included — and never one that was released
+inline void lemma_file_handle() {
+  vt_fd_reset_closed();
+  const int fd = nondet<int>();
+  // valid descriptors only: the policy passes an empty handle's -1 to ::close() as well, which closes nothing
+  vt_assume(fd >= 0 && fd != VT_FD_SRC && fd != VT_FD_DST);
+  vt_fd_watch(fd);
+  const std::uint8_t op = nondet<std::uint8_t>();
+  {
+    nop::UniqueFileHandle h(fd);
+    vt_check(static_cast<bool>(h), "a handle holding a non-negative descriptor is valid");
+    if (op == 0) {
+      // destruction only
+    } else if (op == 1) {
+      h.close();
+      vt_check(vt_fd_closed_watch() == 1u && !h, "close() closes the descriptor once and empties the handle");
+    } else if (op == 2) {
+      const int got = h.release();
+      vt_check(got == fd && !h, "release() hands the descriptor out and empties the handle");
+    } else if (op == 3) {
+      nop::UniqueFileHandle other(std::move(h));
+      vt_check(!h, "a moved-from handle is empty");
+    } else if (op == 4) {
+      h = nop::UniqueFileHandle();  // move-assignment of an empty handle over an owning one closes it
+      vt_check(vt_fd_closed_watch() == 1u && !h, "assigning an empty handle over an owning one closes the descriptor");
+    }
+  }
+  vt_check(vt_fd_closed_watch() == (op != 2 ? 1u : 0u), "the descriptor is closed exactly once unless it was released");
+  vt_cover(fd == 0 && op == 0, "descriptor 0 reached");
+  vt_cover(op == 2, "release reached");
+}
+
 }  // namespace vt
 
+VT_HARNESS(h_fd_block_read) { vt::lemma_fd_block_read(); }
+VT_HARNESS(h_file_handle) { vt::lemma_file_handle(); }
 VT_HARNESS(h_conf_stream_reader) { vt::lemma_reader_conforms<vt::StreamR, true>(); }
 VT_HARNESS(h_conf_fd_reader) { vt::lemma_reader_conforms<nop::FdReader, false>(); }
 VT_HARNESS(h_conf_stream_writer) { vt::lemma_writer_conforms<vt::StreamW, true>(); }
